@@ -37,6 +37,8 @@ Sids(s) == DOMAIN s
 F(clause, who, why) == [line |-> l, clause |-> clause, who |-> who, why |-> why]
 CheckStages(sn, ph) ==
   LET bad == { sid \in DOMAIN sn :
+                 IF sid \notin DOMAIN S.stages THEN TRUE      \* the stage could not even be attached (total verdicts)
+                 ELSE
                  LET o == Owed(sn[sid].kind, sn[sid].ev, sn[sid].closed)
                      g == S.stages[sid]
                  IN IF g.bare THEN g.vals # o[1]      \* a stage subscribed with on_next only: completion and errors are not observable
